@@ -546,3 +546,7 @@ class C15Clauses(IdentityTable):
 from sim.world_a import mag_desc  # noqa: E402
 
 TABLE["C15"] = [C15Clauses]
+
+from sim.clauses_c13 import C13Clauses  # noqa: E402
+
+TABLE["C13"] = [C13Clauses]
